@@ -19,6 +19,7 @@ thread_local! {
 }
 
 pub fn props_of(_case: &Value) -> Vec<&'static str> { vec!["C23"] }
+thread_local! { static STRESS_DONE: std::cell::Cell<bool> = std::cell::Cell::new(false); }
 
 fn atom(s: &str) -> Unifiable { Unifiable::Atom(s.to_string()) }
 fn var(s: &str) -> Unifiable { Unifiable::LogicVar { id: 0, name: s.to_string() } }
@@ -82,6 +83,32 @@ pub fn replay(case: &Value) -> Vec<Obs> {
 
     let (d, m) = calibrate();
     let kb = kb_with_slow(d, m);
+    // Once per run: NoFalseTimeout under the schedules nobody chooses.  The hooks place the callback; they cannot place
+    // cancel_timer() inside the start-up of the timer thread (cancel() answers NotWaiting there although nothing fired).
+    // So the real scheduler is sampled: many fast queries through solve(), each a fresh timer thread; a reply that is
+    // the timeout message from a call that took under 250 ms is a search well within the limit reported as timed out.
+    if STRESS_DONE.with(|f| !f.replace(true)) {
+        let n = if std::env::var("VERIF_TIER").map_or(false, |t| t == "thorough") { 80_000 } else { 30_000 };
+        // searches of several lengths (a few microseconds to a few hundred), to sweep cancel_timer() across the start-up
+        let small: Vec<KnowledgeBase> = vec![kb_with_slow(0, 3), kb_with_slow(1, 2), kb_with_slow(1, 8), kb_with_slow(2, 2), kb_with_slow(2, 6)];
+        for i in 0..n {
+            let which = i % (small.len() + 1);
+            let t0 = Instant::now();
+            let r = if which == small.len() {
+                start_query();
+                let sn = make_base_node(Rc::new(make_query(vec![atom("fast"), var("$X"), var("$Y")])), &kb);
+                solve(sn)
+            } else {
+                start_query();
+                let sn = make_base_node(Rc::new(make_query(vec![atom("slow")])), &small[which]);
+                solve(sn)
+            };
+            let el = t0.elapsed();
+            if r.starts_with("Query timed out") && el.as_millis() < 250 {
+                return vec![Obs::bad("C23", "false-timeout", format!("solve() call {} of the sampling run (search size {}) took {:?} and reported {:?}", i + 1, which, el, r))];
+            }
+        }
+    }
     let mut log = String::new();
     let mut bad: Option<String> = None;
     hooks::gate_timer_callback(false);
@@ -119,7 +146,9 @@ pub fn replay(case: &Value) -> Vec<Obs> {
                 // the callback must now be waiting at the gate (the limit was exceeded while the search went on)
                 if hooks::wait_callback_arrived(3000) { gate_pending = true; }
                 else { return vec![Obs::ok("SKIP", "timer-did-not-expire")]; }
-                if timed_out && bad.is_none() { bad = Some(format!("query {} reported a timeout although no callback had run", i)); }
+                // (the property allows the timeout message whenever the limit was exceeded -- it was, here; the
+                //  protocol of Timer.tla reports it only when the callback ran, which is what the engine does)
+                if timed_out && el < 900 && bad.is_none() { bad = Some(format!("query {} reported a timeout after {} ms although no callback had run", i, el)); }
             }
             // own callback during the search: a timeout report (or a complete answer list) is right
             let answers: Vec<&String> = v.iter().filter(|s| !s.starts_with("Query timed out")).collect();
@@ -137,6 +166,16 @@ pub fn replay(case: &Value) -> Vec<Obs> {
     // now and searched only after the limit of the LAST query has passed (nothing is built or started in between, so
     // nothing clears the flag) must still find everything.
     if bad.is_none() && !cbs.iter().any(|(t, _, _)| *t == nq) {
+        // (the last report before the pause is a "No more." of solve(): a fast query asked one answer at a time)
+        {
+            let query = make_query(vec![atom("fast"), var("$X"), var("$Y")]);
+            let sn = make_base_node(Rc::new(query), &kb);
+            let mut got: Vec<String> = vec![];
+            for _ in 0..6 { let r = solve(Rc::clone(&sn)); let end = r == "No more."; got.push(r); if end { break; } }
+            let mut want: Vec<String> = FAST_ANSWERS.iter().map(|s| s.to_string()).collect(); want.push("No more.".into());
+            if got != want { bad = Some(format!("a fast query asked with solve() reported {:?} instead of {:?}", got, want)); }
+            log.push_str(" | solve() x5 -> No more.");
+        }
         let query = make_query(vec![atom("fast"), var("$X"), var("$Y")]);
         let sn = make_base_node(Rc::new(query), &kb);
         std::thread::sleep(std::time::Duration::from_millis(1250));
